@@ -29,7 +29,8 @@ SPEC = dict(
                  "--ignore-vcs-tag is the documented opt-out: only 'tags do not influence the start' is asserted there",
                  "day-of-year 366 in a non-leap year is not generated (the statement does not say whether it matches)"],
     required=["fake_runs", "real_git_runs", "scope:default", "scope:global", "scope:branch", "ignore_runs",
-              "impossible_date_tags", "tie_cases", "uniqueness_checked", "no_matching_tag_cases", "cli_tag_scope_overrides", "show_pep440_line_checked", "fetch_failure_cases", "legacy_pattern_runs", "line_separator_in_tag_name", "non_utf8_tag_names", "real_git_column_ui_always"],
+              "impossible_date_tags", "tie_cases", "uniqueness_checked", "no_matching_tag_cases", "cli_tag_scope_overrides", "show_pep440_line_checked", "fetch_failure_cases", "legacy_pattern_runs", "line_separator_in_tag_name", "non_utf8_tag_names", "real_git_column_ui_always", "unicode_blank_at_tag_edge",
+              "planned_result_is_a_pep440_equal_tag_elsewhere"],
     anchors=[("cli", "_parse_version_tags"), ("cli", "get_latest_vcs_version_tag"), ("cli", "_update_cfg_from_vcs"),
              ("vcs", "get_tags"), ("v2version", "is_valid"), ("v1version", "is_valid")],
 )
@@ -94,6 +95,14 @@ def gen_tags(R, p, ast, names, tdy, base_state):
             rs = gen.reachable(ast, st, tdy)
             if rs and not projects._week53(names, rs[1]):
                 out.append((R.choice(["nightly", "x", "rel"]) + R.choice(["\u2028", "\u2029", "\u0085"]) + rs[0], "line-separator-in-name"))
+        elif r < 0.93:
+            # a high version text with a Unicode blank glued to one end (legal in a ref name): not a full match
+            _d, st = gen.gen_state(R, names)
+            st.update(major=778, year_y=2096, year_g=2096)
+            rs = gen.reachable(ast, st, tdy)
+            if rs and not projects._week53(names, rs[1]):
+                b = R.choice(["\u00a0", "\u2009", "\u3000", "\u0085"])
+                out.append((rs[0] + b if R.random() < 0.5 else b + rs[0], "unicode-blank-at-edge"))
         elif has_md:
             st = dict(base_state)
             st.update(year_y=R.choice([2021, 2023, 2030]), month=R.choice([2, 2, 4, 6, 9, 11]))
@@ -105,7 +114,7 @@ def gen_tags(R, p, ast, names, tdy, base_state):
     seen = set()
     res = []
     for t, k in out:
-        if t not in seen and t == t.strip() and " " not in t and t:
+        if t not in seen and (t == t.strip() or k == "unicode-blank-at-edge") and " " not in t and t:
             seen.add(t)
             res.append((t, k))
     R.shuffle(res)
@@ -240,9 +249,11 @@ def observe(ctx, case, d, env, p, ast, tdy, cur, tags_all, tags_merged, scope, c
             ctx.count("uniqueness_checked")
             if ignore:
                 ctx.count("uniqueness_checked_under_ignore_in_branch_scope")
-            if a in tags_all:
-                ctx.violation("other:new_version_equals_existing_tag", f"{uargs}: announced {a!r} is an existing tag "
-                              f"(scope={scope}, tags={tags_all})", case=case, observed=desc)
+            same = [t for t in tags_all if t == a or (matches(ast, t, tdy) and vkey(t) is not None and vkey(t) == vkey(a))]
+            if same:
+                ctx.violation("other:new_version_equals_existing_tag" if a in tags_all else
+                              "new_version_pep440_equal_to_existing_tag", f"{uargs}: announced {a!r} equals the "
+                              f"existing tag(s) {same} (scope={scope}, tags={tags_all})", case=case, observed=desc)
 
 
 def run_fake(ctx, case):
@@ -260,12 +271,25 @@ def run_fake(ctx, case):
     m = [t for t in tags_all if matches(ast, t, tdy)]
     if m and R.random() < 0.3:
         cur = max(m, key=vkey)
-    if ignore and R.random() < 0.6:
-        # the version the planned update arrives at already exists as a tag on ANOTHER branch
-        fl, date = planned_update(case, p, ast, cur, tdy)
-        exp, _why = updates.model_bump(p, cur, fl, date, tdy)
+    eff_scope = cli_scope or scope
+    if (ignore and R.random() < 0.6) or (eff_scope == "branch" and R.random() < 0.4):
+        # the version the planned update arrives at already exists as a tag on ANOTHER branch - as the same text,
+        # or in another spelling of the same PEP 440 version (1.3 vs 1.3.0)
+        start = cur
+        if not ignore:
+            acc, _w = expected_start(ast, tdy, cur, tags_all, tags_merged, eff_scope, ignore)
+            start = sorted(acc)[0]
+        fl, date = planned_update(case, p, ast, start, tdy)
+        exp, _why = updates.model_bump(p, start, fl, date, tdy)
         if exp is not None and exp not in tags_all:
-            tags_all.append(exp)
+            plant = exp
+            if R.random() < 0.5:
+                st_exp = updates.new_state_from_text(p, exp, tdy)
+                full = ref.render_full(ast, st_exp) if st_exp else exp
+                if full != exp and ref.parse(ast, full) is not None and vkey(full) is not None and vkey(full) == vkey(exp):
+                    plant = full
+                    ctx.count("planned_result_is_a_pep440_equal_tag_elsewhere")
+            tags_all.append(plant)
             kinds.add("valid")
             ctx.count("planned_result_is_a_tag_elsewhere")
     d = harness.new_project(make_project(p, cur, scope if (scope != "default" or R.random() < 0.5) else None))
@@ -281,6 +305,8 @@ def run_fake(ctx, case):
         ctx.count("fake_runs")
         if "line-separator-in-name" in kinds:
             ctx.count("line_separator_in_tag_name")
+        if "unicode-blank-at-edge" in kinds:
+            ctx.count("unicode_blank_at_tag_edge")
         fetch_fails = R.random() < 0.12
         if fetch_fails:
             fake.set_out("branch", "*origin\n")
